@@ -37,8 +37,11 @@ class Node:
 
 
 class CFG:
-    def __init__(self, fn: FuncNode) -> None:
+    def __init__(self, fn: FuncNode, asserts_may_pass: bool = False) -> None:
         self.fn = fn
+        # python -O removes assert statements: a rule about what *must* happen before a return reads an assert as a
+        # test whose failure may also fall through
+        self.asserts_may_pass = asserts_may_pass
         self.nodes: t.List[Node] = []
         self.succ: t.Dict[int, t.List[t.Tuple[int, t.Any]]] = {}
         self.pred: t.Dict[int, t.List[t.Tuple[int, t.Any]]] = {}
@@ -189,7 +192,7 @@ class CFG:
             tr, fa = self._cond(st.test, ins, st)
             for src, lab in fa:
                 self._edge(src, self.exc, lab)
-            return tr
+            return tr + (fa if self.asserts_may_pass else [])
         if isinstance(st, (ast.FunctionDef, ast.AsyncFunctionDef, ast.ClassDef)):
             n = self._new("stmt", st, st)
             self._link(ins, n.id)
@@ -391,5 +394,5 @@ class CFG:
                 stack.append((y, path, labels + [lab], visits, decisions))
 
 
-def build(fn: FuncNode) -> CFG:
-    return CFG(fn)
+def build(fn: FuncNode, asserts_may_pass: bool = False) -> CFG:
+    return CFG(fn, asserts_may_pass)
